@@ -280,6 +280,13 @@ class _FirstPossible:
                 return it
         raise core.emulated(ValueError("probabilities do not sum to 1"))
 
+    # a pick computed from a uniform draw (inverse-CDF sampling): the smallest draw selects the first option of positive probability
+    def random(self, size=None):
+        return 0.0
+
+    def uniform(self, low=0.0, high=1.0, size=None):
+        return low
+
 
 def core_exceptions():
     return (core.HarnessBug,)
